@@ -108,6 +108,11 @@ end Timepoints
 
 section Nodes
 
+/-- `ts.samples()`: the ids whose flags have `NODE_IS_SAMPLE` (bit 0) set — taken from the flags
+column, not from node positions. -/
+def sampleIds (flags : List Nat) : List Nat :=
+  (List.range flags.length).filter (fun u => flags.getD u 0 % 2 == 1)
+
 /-- `datable_nodes`: every node id that is not a sample. -/
 def datable (numNodes : Nat) (samples : List Nat) : List Nat :=
   (List.range numNodes).filter (fun u => !samples.contains u)
@@ -116,6 +121,10 @@ def datable (numNodes : Nat) (samples : List Nat) : List Nat :=
 default argsort does not promise an order among ties, the harness compares up to ties). -/
 def nonfixed {τ : Type} [LE τ] [DecidableLE τ] (numNodes : Nat) (samples : List Nat) (time : Nat → τ) : List Nat :=
   (datable numNodes samples).mergeSort (fun a b => decide (time a ≤ time b))
+
+/-- `nonfixed_nodes` of a tree sequence given by its node flags and times. -/
+def nonfixedOfFlags {τ : Type} [LE τ] [DecidableLE τ] (flags : List Nat) (time : Nat → τ) : List Nat :=
+  nonfixed flags.length (sampleIds flags) time
 
 /-- `row_lookup[u]`: `some r` = row `r` of `grid_data`; `none` = a fixed node (scalar slot). -/
 def rowLookup (nonfixedNodes : List Nat) (u : Nat) : Option Nat :=
